@@ -639,7 +639,7 @@ func genModel(t *rapid.T, o modelOpts) map[string]any {
 	}
 	netPool, volPool := []string{"front", "back", "mesh", "default"}, []string{"dbdata", "cachevol", "logs"}
 	if o.Hostile {
-		netPool = append(netPool, "labels", "aliases") // (not `x-...`: a service cannot refer to such a network, its key is taken for an extension)
+		netPool = append(netPool, "labels", "aliases", "x-net")
 		volPool = append(volPool, "labels", "volume")
 	}
 	secPool, cfgPool := []string{"token", "cert", "apikey"}, []string{"appconf", "nginxconf", "motd"}
